@@ -631,3 +631,16 @@ package gomavlib
 //@   requires e != nil && e.terminate != nil && e.listener != nil
 //@   ensures  [wakes-the-provider-and-stops-accepting] logLen() == 2 && logIs(0, "close", "terminate") && logCallee(1, "net.Listener.Close")
 //@   modifies ghost:log
+
+// deprecated constructor: every option of the configuration reaches the node field of the same name, then Initialize
+//@ func NewNode returns (n, err)
+//@   ghostlog (*gomavlib.Node).Initialize
+//@   ensures  [every-option-reaches-its-field] n != nil && n.Dialect == conf.Dialect && n.InKey == conf.InKey && n.OutKey == conf.OutKey &&
+//@              n.OutVersion == conf.OutVersion && n.OutSystemID == conf.OutSystemID && n.OutComponentID == conf.OutComponentID &&
+//@              n.HeartbeatDisable == conf.HeartbeatDisable && n.HeartbeatPeriod == conf.HeartbeatPeriod &&
+//@              n.HeartbeatSystemType == conf.HeartbeatSystemType && n.HeartbeatAutopilotType == conf.HeartbeatAutopilotType &&
+//@              n.StreamRequestEnable == conf.StreamRequestEnable && n.StreamRequestFrequency == conf.StreamRequestFrequency &&
+//@              n.ReadTimeout == conf.ReadTimeout && n.WriteTimeout == conf.WriteTimeout && n.IdleTimeout == conf.IdleTimeout &&
+//@              len(n.Endpoints) == len(conf.Endpoints)
+//@   ensures  [then-initialised] logLen() == 1 && logCallee(0, "(*gomavlib.Node).Initialize") && logArgIsPtr(0, 0, n) && err == logRetErr(0)
+//@   modifies ghost:log
